@@ -110,6 +110,10 @@ Definition ddesc := (Z * Z * list Z)%type.
 Definition hZ (ds : list ddesc) (d : nat) (args : list Z) : Z :=
   let '(k, c, _) := nth d ds (2, 0, []) in
   match cellfun k c args with Some v => v | None => 0 end.
+(** kind 4 raises when the sum of its arguments exceeds c *)
+Definition failsZ (ds : list ddesc) (d : nat) (args : list Z) : bool :=
+  let '(k, c, _) := nth d ds (2, 0, []) in
+  match cellfun k c args with Some _ => false | None => true end.
 
 Inductive zcop := ZAssign (d v : Z) | ZPost (body : list (Z * Z)) (raises : bool).
 Definition to_cop (o : zcop) : cop Z :=
@@ -121,18 +125,19 @@ Definition to_cop (o : zcop) : cop Z :=
 Definition obs_c (g : dgraph) (s : cstate Z) : val :=
   VL [vlistZ (values Z s); VB (suspended Z s)].
 
-Fixpoint crun (fin : bool) (ds : list ddesc) (g : dgraph) (s : cstate Z) (ops : list (cop Z)) : list val :=
+Fixpoint crun (fin retain : bool) (ds : list ddesc) (g : dgraph) (s : cstate Z) (ops : list (cop Z)) : list val :=
   match ops with
   | [] => []
-  | o :: rest => let s1 := cstep Z 0 (hZ ds) fin g s o in obs_c g s1 :: crun fin ds g s1 rest
+  | o :: rest => let s1 := cstep Z 0 (hZ ds) (failsZ ds) retain fin g s o in obs_c g s1 :: crun fin retain ds g s1 rest
   end.
 
 (** [fin]: does the current source of updates_postponed have a `finally:` clause *)
-Definition run_ccase (c : bool * list ddesc * list Z * list zcop) : val :=
-  let '(fin, ds, asg, ops) := c in
+(** [retain]: is the dirty set only cleared after the loop of _updateIntermediateValues *)
+Definition run_ccase (c : bool * bool * list ddesc * list Z * list zcop) : val :=
+  let '(fin, retain, ds, asg, ops) := c in
   let g : dgraph := map (fun d => map Z.to_nat (snd d)) ds in
-  let s0 := cinit Z 0 (hZ ds) g asg in
-  VL (obs_c g s0 :: crun fin ds g s0 (map to_cop ops)).
+  let s0 := cinit Z 0 (hZ ds) (failsZ ds) retain g asg in
+  VL (obs_c g s0 :: crun fin retain ds g s0 (map to_cop ops)).
 
 (** a single entry point so that one generated cases file can hold both kinds *)
 (** ** rule export/import runner.  Values are integers scaled by the harness
@@ -229,7 +234,7 @@ Definition run_scase (c : Z * Z * bool * bool * list (zcell * zstg) * list zsop)
   let nid0 := S (length t0) in
   VL (obs_step dlo dhi ind chrono t0 nid0 t0 :: srun dlo dhi ind chrono t0 nid0 (t0, nid0) ops).
 
-Inductive anycase := ACalc (c : list cdesc * list Z * list zop) | ACtl (c : bool * list ddesc * list Z * list zcop)
+Inductive anycase := ACalc (c : list cdesc * list Z * list zop) | ACtl (c : bool * bool * list ddesc * list Z * list zcop)
                    | ARule (c : bool * zsetting * zsetting)
                    | AScope (c : Z * Z * bool * bool * list (zcell * zstg) * list zsop).
 Definition run_any (c : anycase) : val :=
